@@ -335,7 +335,8 @@ def load_known():
 def finish(ctx, level="proof"):
     known = {(k["property"], k["key"]): k for k in load_known().get("findings", [])}
     os.makedirs(os.path.join(VERIF, "replay"), exist_ok=True)
-    os.makedirs(os.path.join(VERIF, "evidence"), exist_ok=True)
+    evdir = os.environ.get("VERIF_EVIDENCE_DIR") or os.path.join(VERIF, "evidence")
+    os.makedirs(evdir, exist_ok=True)
     new_fail, known_hit = [], {}
     for f in ctx.failures:
         k = (ctx.prop, f["key"])
@@ -393,7 +394,7 @@ def finish(ctx, level="proof"):
         wall_s=round(ctx.elapsed(), 2),
         violations=len(new_fail) + (1 if (exit_code == 1 and not new_fail) else 0),
     )
-    with open(os.path.join(VERIF, "evidence", ctx.prop + ".json"), "w") as f:
+    with open(os.path.join(evdir, ctx.prop + ".json"), "w") as f:
         json.dump(ev, f, indent=1, default=str)
     for ln in lines:
         print(ln, flush=True)
